@@ -21,8 +21,9 @@ cat = json.load(open("/verif/mutants/catalogue.json"))
 for i, (it, r) in enumerate(zip(items, res), 1):
     iid, status, keys = r[0], r[1], [k for k in r[2] if k not in known]
     counts = r[3] if len(r) > 3 else None
-    low = sorted(ru for ru in props.RULE_TEXT if counts is not None and selftest.below_floor(counts, floors, ru))
-    verdict = "SILENT" if status == "analysed" and not keys and not low else "ATTENTION"
+    # floors describe /repo HEAD; a patch evaluated against an earlier commit is only compared with that commit's own report
+    low = sorted(ru for ru in props.RULE_TEXT if status == "analysed" and counts is not None and selftest.below_floor(counts, floors, ru))
+    verdict = "SILENT" if (status == "analysed" or status.startswith("analysed@")) and not keys and not low else "ATTENTION"
     print("%s %s: %s %s %s %s" % (wid, iid, verdict, status if status != "analysed" else "", keys[:4], ("below floor: %s" % low) if low else ""))
     print("     " + (summ.get(iid, {}).get("summary", "")[:300]))
     if status == "inconclusive":
